@@ -33,6 +33,29 @@ NO_RULE = {"strategy/trend.AlligatorStrategy": "neither the type doc nor the REA
            "strategy/momentum.StochasticRsiStrategy": "the documentation gives two levels but no direction (BuyAt 0.8 > SellAt 0.2)"}
 
 
+# property C18: degree of homogeneity (price, volume) of the documented quantities the rules compare; levels and other
+# literals are pure numbers, the literal 0 compares with anything (a sign does not change under positive scaling)
+QDEG = {"apo": (1, 0), "prev_apo": (1, 0), "down": (0, 0), "up": (0, 0), "bop": (0, 0), "cci": (0, 0), "upper_level": (0, 0),
+        "lower_level": (0, 0), "dema_long": (1, 0), "dema_short": (1, 0), "close": (1, 0), "lower": (1, 0), "upper": (1, 0),
+        "fast": (1, 0), "slow": (1, 0), "medium": (1, 0), "long": (1, 0), "short": (1, 0), "kama": (1, 0), "j": (0, 0), "k": (0, 0),
+        "d": (0, 0), "macd": (1, 0), "signal": (1, 0), "qstick": (1, 0), "trix": (0, 0), "tsi": (0, 0), "sma": (1, 0), "vwma": (1, 0),
+        "ma": (1, 0), "wc": (1, 0), "ao": (1, 0), "rsi": (0, 0), "buy_at": (0, 0), "sell_at": (0, 0), "supertrend": (1, 0),
+        "cmf": (0, 0), "emv": (2, -1), "fi": (1, 1), "mfi": (0, 0), "nvi": (0, 0), "ema": (0, 0), "vwap": (1, 0), "i": (0, 0)}
+QDEG_IN = {("strategy/trend.TsiStrategy", "signal"): (0, 0)}     # the signal line of the TSI is an EMA of the TSI
+
+
+def operand_dim(strategy, o):
+    """<<price degree, volume degree, is the literal zero>> of an atom operand"""
+    try:
+        v = float(o)
+        return (0, 0, v == 0.0)
+    except ValueError:
+        d = QDEG_IN.get((strategy, o), QDEG.get(o))
+        if d is None:
+            raise ValueError("no degree of homogeneity stated for quantity %r of %s" % (o, strategy))
+        return (d[0], d[1], False)
+
+
 def load():
     rules = json.load(open(os.path.join(VERIF, "spec", "rules_documented.json")))
     out = []
@@ -84,7 +107,7 @@ def compile_rules():
     """returns (tla_text, meta) where meta[strategy] = {"atoms": [(lhs, rhs)...], "mode":...}"""
     rules = load()
     meta = {}
-    nat, buy, sell, mode, nosell, assume, real = [], [], [], [], [], [], []
+    nat, buy, sell, mode, nosell, assume, real, dims = [], [], [], [], [], [], [], []
     for r in rules:
         c = Conv()
         b = c.conv(ast.parse(pyexpr(r["buy"]), mode="eval").body)
@@ -94,6 +117,9 @@ def compile_rules():
         assume.append('s = "%s" -> %s' % (name, c.conv(ast.parse(pyexpr(a), mode="eval").body) if a else "TRUE"))
         meta[name] = {"atoms": c.atoms, "mode": r["mode"], "buy": r["buy"], "sell": r["sell"], "doc": r.get("doc", "")[:300]}
         nat.append('s = "%s" -> %d' % (name, len(c.atoms)))
+        dims.append('s = "%s" -> <<%s>>' % (name, ", ".join(
+            "<<%s>>" % ", ".join("<<%d, %d, %s>>" % (d[0], d[1], "TRUE" if d[2] else "FALSE") for d in (operand_dim(name, l), operand_dim(name, r_)))
+            for l, r_ in c.atoms)))
         real.append('s = "%s" -> {%s}' % (name, ", ".join("<<" + ", ".join(str(x) for x in v) + ">>" for v in realizable(c.atoms))))
         buy.append('s = "%s" -> %s' % (name, b))
         sell.append('s = "%s" -> %s' % (name, s))
@@ -108,6 +134,8 @@ def compile_rules():
          "BuyIf(s, v) == CASE " + "\n  [] ".join(buy),
          "SellIf(s, v) == CASE " + "\n  [] ".join(sell),
          "Mode(s) == CASE " + "\n  [] ".join(mode),
+         "\\* per atom: <<price degree, volume degree, is the literal 0>> of the left and of the right operand",
+         "AtomDims(s) == CASE " + "\n  [] ".join(dims),
          "Assume(s, v) == CASE " + "\n  [] ".join(assume),
          "NoSell(s) == s \\in {" + ", ".join('"%s"' % n for n in nosell) + "}",
          "===="]
